@@ -42,7 +42,7 @@ for n, (f, props, old, new) in enumerate(E):
             print(n, f, 'DOES NOT COMPILE', bld.stdout[-300:], flush=True); continue
         out = []
         for pr in props.split():
-            r = subprocess.run(['/verif/check', pr, '--tier', 'quick'], env=dict(os.environ, VERIF_REPO=d, VERIF_NO_REPLAYER='1'), stdout=subprocess.PIPE, stderr=subprocess.STDOUT, text=True)
+            r = subprocess.run([os.path.join(os.path.dirname(os.path.dirname(os.path.dirname(os.path.abspath(__file__)))), 'check'), pr, '--tier', 'quick'], env=dict(os.environ, VERIF_REPO=d, VERIF_NO_REPLAYER='1'), stdout=subprocess.PIPE, stderr=subprocess.STDOUT, text=True)
             und = [l.strip()[:160] for l in r.stdout.split('\n') if 'UNDECIDED' in l or 'failed obligation' in l][:2]
             out.append((pr, r.returncode, und))
         bad = [o for o in out if o[1] == 1]
